@@ -1089,11 +1089,18 @@ def correspond(ctx):
         "shape pairs; Bint arrays at all-max / all-zero / smallest-divisor / random values.  For each case: find_domain vs "
         "Lean model, op on arrays vs declared shape and range, numpy shape vs Lean np-spec; for a seeded fraction, "
         "the lazy term over Variables (reflect) vs the eager result on Tensors/Numbers with 0-2 batch inputs and vs "
-        "substitution into the lazy term.  Non-trivial = the rule returned a domain and the op returned an array; "
+        "substitution into the lazy term.  Term constructors (c06_terms.py): Lambda (bound variable present/absent, "
+        "size 1..3), Stack, Cat (part_name =/!= name), Reduce (named, incl. absent variables), Subs (numbers, renames, "
+        "index tensors, slices, swaps), Slice, Align, getitem chains with funsor indices, Independent, Binary over "
+        "Variables (Contraction via normalize), exhaustively over 0-2 batch inputs x event rank 0-2 x {real, Bint[3]}: "
+        "reflect-built declaration vs an own typing function, eager and reinterpreted result vs the declaration "
+        "(output, inputs subset, data shape, Bint range); plus random fv/gen_terms recipes.  Non-trivial = the rule returned a domain and the op returned an array; "
         "distinct by (op, parameters, operand domains).")
     run = Run(ctx)
     streams(run, ctx.tier)
     report_known(ctx, run)
+    from . import c06_terms
+    c06_terms.run_constructors(ctx, ctx.tier)
     bad = table_checks(ctx)
     ctx.extra["table_counter_entries"] = bad[:10]
     ctx.exhaustive = False
@@ -1117,6 +1124,8 @@ def search(ctx, broken):
         ctx.extra.setdefault("table_counter_entries", []).append((name, rule, key, declared))
     run = Run(ctx, use_driver=False)
     streams(run, "quick")
+    from . import c06_terms
+    c06_terms.run_constructors(ctx, "thorough", report=False)
     if sum(1 for f in ctx.failures if f.witness is not None) > before:
         return
     run = Run(ctx, use_driver=False)
